@@ -38,8 +38,11 @@ type Op struct {
 	Kind   string    `json:"kind"` // create update delete fork (fork: concurrent update on the other author, merged back, then a two-head commit)
 	Doc    int       `json:"doc"`
 	Fields []FieldOp `json:"fields"`
-	Req    *Ident    `json:"req"`  // request identity (with private key) or nil
-	Sync   bool      `json:"sync"` // afterwards merge the produced document commit into the other author node
+	Req    *Ident    `json:"req"` // request identity (with private key) or nil
+	// Encrypt / EncFields take effect when the operation creates the document: doc-level encryption and/or encryptFields.
+	Encrypt   bool     `json:"encrypt,omitempty"`
+	EncFields []string `json:"enc_fields,omitempty"`
+	Sync      bool     `json:"sync"` // afterwards merge the produced document commit into the other author node
 }
 
 // Tamper selects one signed block below (or equal to) the pushed one and one mutation.
@@ -60,6 +63,8 @@ type Push struct {
 	Post        bool   `json:"post"`   // after the rejected push, push the honest commit to the same receiver
 	Replay      bool   `json:"replay"` // after the rejected push, push the honest block under the forged commit's cid
 	Tamper      Tamper `json:"tamper"`
+	// KeyLess: the receivers are not given the key blocks of encrypted documents (their key requests are answered empty).
+	KeyLess bool `json:"key_less,omitempty"`
 }
 
 // Case is one generated scenario.
@@ -141,6 +146,17 @@ func drawCase(t *rapid.T) Case {
 			seen[fo.Field] = true
 			o.Fields = append(o.Fields, fo)
 		}
+		switch rapid.IntRange(0, 11).Draw(t, "encryption") {
+		case 0, 1:
+			o.Encrypt = true
+		case 2, 3:
+			o.EncFields = []string{rapid.SampledFrom([]string{"s", "pn", "i"}).Draw(t, "enc_field")}
+		case 4:
+			o.Encrypt = true
+			o.EncFields = []string{rapid.SampledFrom([]string{"s", "pn", "i"}).Draw(t, "enc_field")}
+		case 5:
+			o.EncFields = []string{"s", "pn"}
+		}
 		if rapid.IntRange(0, 9).Draw(t, "req_ident") < 3 {
 			id := genIdent().Draw(t, "req")
 			o.Req = &id
@@ -170,18 +186,20 @@ func drawCase(t *rapid.T) Case {
 		Arg:    rapid.IntRange(0, 255).Draw(t, "tamper_arg"),
 		Resign: genIdent().Draw(t, "resign"),
 	}
+	p.KeyLess = rapid.IntRange(0, 9).Draw(t, "key_less") < 2
 	c.Push = p
 	c.AvoidKnown = rapid.Bool().Draw(t, "avoid_known")
 	return c
 }
 
 const rule = "1-2 author nodes (node identity secp256k1/ed25519 from fixed seeds, or none) execute 1-9 create/update/delete operations on 1-2 documents " +
-	"(registers and three counters, optional request identity per operation, optional merge into the other author so that multi-signer and multi-head DAGs arise, optionally a branchable collection); " +
+	"(registers and three counters, documents created plain, with doc-level encryption, with encryptFields or both, optional request identity per operation, optional merge into the other author so that multi-signer and multi-head DAGs arise, optionally a branchable collection); " +
 	"(1) every block written is checked on its author: signed iff the design says so, DB.VerifySignature and VerifyBlockSignatureWithKey accept exactly the effective signer's key and an independent verifier (stdlib ed25519 / decred ecdsa over the re-marshalled block without signature link) agrees; " +
-	"(2) one update notification is pushed through the real push-log handler to a fresh (or honestly pre-fed) receiver: honestly (control) and with ONE mutation of ONE signed block at any depth below it (content field, head/link, or signature block), the blocks above re-pointed and validly re-signed by the attacker's key; " +
+	"(2) one update notification is pushed through the real push-log handler to a fresh (or honestly pre-fed) receiver: honestly (control) and with ONE mutation of ONE signed block at any depth below it (content field, head/link, encryption link, or signature block), the blocks above re-pointed and validly re-signed by the attacker's key; " +
 	"non-trivial = the forged DAG decodes, every link and signature link of it resolves in the receiver's blockstore, every block above the target verifies and the target's attached signature does not (independent verifier), so only the signature check can reject it; distinct = distinct case"
 
 var rec = hx.NewRecorder("C12", rule,
+	"key blocks are not part of the DAG sync: receivers get them up front (legitimate recipient) or not at all (key-less, requests answered empty); a forged block's encryption link need not resolve",
 	"a forged commit without signature link is outside the statement and is not generated as the target",
 	"field commits of height > 1 are unsigned by design and never chosen as the target; they are re-pointed like any other block on the path",
 	"a block re-signed consistently with another key is a valid commit of that key (the receive path has no author policy) and is used only to carry a forged block below it",
